@@ -142,6 +142,9 @@ func (p *Prog) VerifyFunction(fn *ssa.Function, fc *FuncContract, split *int, wa
 	for _, fv := range fn.FreeVars {
 		v := e.declare("fv_"+mangle(fv.Name()), p.W.SortOf(fv.Type()))
 		e.assumeValid(st, v, fv.Type())
+		if v.S == SLoc {
+			e.fact(Not(Eq(LRef(v), IntLit(0)))) // captured variables are allocated cells
+		}
 		fvs = append(fvs, v)
 		pbind[fv.Name()] = TV{Val: v, Ty: fv.Type()}
 	}
@@ -191,6 +194,44 @@ func (p *Prog) VerifyFunction(fn *ssa.Function, fc *FuncContract, split *int, wa
 		for _, rq := range tc.fc.Requires {
 			if !assumeReq(rq, tc.bind, tc.fc.Spec) {
 				return e
+			}
+		}
+	}
+	pkgPath := ""
+	if fn.Pkg != nil {
+		pkgPath = fn.Pkg.Pkg.Path()
+	} else if fn.Parent() != nil && fn.Parent().Pkg != nil {
+		pkgPath = fn.Parent().Pkg.Pkg.Path()
+	}
+	pinv := p.CS.PluginInv[pkgPath]
+	isSetup := isSetupFunc(fn)
+	if len(tcs) > 0 {
+		// handlers run after a successful setup: the plugin invariants hold
+		for _, cl := range pinv {
+			if len(cl.Tags) > 0 && !hasTag(cl.Tags, fn.Name()) {
+				continue // invariant scoped to other setup/handler functions
+			}
+			if !assumeReq(cl, pbind, p.CS.InitSpec[pkgPath]) {
+				return e
+			}
+		}
+	}
+	// machine-checked frame condition behind that assumption: the globals are written only by the named functions
+	if len(tcs) > 0 || isSetup {
+		for gk, allowed := range p.CS.WrittenBy {
+			if !strings.HasPrefix(gk, pkgPath+".") {
+				continue
+			}
+			for _, w := range p.writersOfKey(gk) {
+				ok := false
+				for _, a := range allowed {
+					if w == a || strings.HasSuffix(w, "."+a) {
+						ok = true
+					}
+				}
+				if !ok {
+					e.oblig(st, "frame", "configuration-global-written:"+lastPart(gk)+" in "+w, False, fn.Pos(), nil, nil)
+				}
 			}
 		}
 	}
@@ -253,8 +294,30 @@ func (p *Prog) VerifyFunction(fn *ssa.Function, fc *FuncContract, split *int, wa
 				}
 			}
 		}
+		if isSetup && len(r.results) == 2 {
+			// a setup function that succeeds establishes the plugin invariants (C19)
+			for i, cl := range pinv {
+				if len(cl.Tags) > 0 && !hasTag(cl.Tags, fn.Name()) {
+					continue
+				}
+				ec := &EvalCtx{e: e, st: r.st, old: fr.oldSt, fr: fr, bind: map[string]TV{}, spec: p.CS.InitSpec[pkgPath], atReturn: true}
+				c, err := ec.evalBool(cl.Expr)
+				if err != nil {
+					e.failed = fmt.Errorf("%s:%d: %v", cl.File, cl.Line, err)
+					return e
+				}
+				lab := cl.Label
+				if lab == "" {
+					lab = fmt.Sprintf("%d", i+1)
+				}
+				e.oblig(r.st, "post", "plugin-invariant:"+lab+"@"+rlabel, Implies(Eq(ITyp(r.results[1]), IntLit(0)), c), r.instr.Pos(), []string{"C19"}, cl)
+			}
+		}
 		for _, tc := range tcs {
 			for i, en := range tc.fc.Ensures {
+				if hasTag(en.Tags, "callsite") {
+					continue // ghost bookkeeping done by the call rule, not by the implementation
+				}
 				if !check(en, i, tc.bind, tc.sig, tc.fc.Spec, lastPart(tc.fc.Key)+":") {
 					return e
 				}
@@ -461,4 +524,18 @@ func (p *Prog) VerifyLemma(l *Lemma, split *int) *Enc {
 		e.oblig(st, "lemma", lab, c, token.NoPos, en.Tags, en)
 	}
 	return e
+}
+
+// isSetupFunc: a plugin setup function returns (handler.Handler4|Handler6, error).
+func isSetupFunc(fn *ssa.Function) bool {
+	res := fn.Signature.Results()
+	if res.Len() != 2 {
+		return false
+	}
+	nt, ok := res.At(0).Type().(*types.Named)
+	if !ok || nt.Obj().Pkg() == nil {
+		return false
+	}
+	n := nt.Obj().Name()
+	return strings.HasSuffix(nt.Obj().Pkg().Path(), "/handler") && (n == "Handler4" || n == "Handler6")
 }
